@@ -39,3 +39,14 @@ package detection
 //@   ensures [C08.id] result.SignatureID == sig.ID && result.SignatureName == sig.Name && result.MatchedFunction == funcName
 //@   loop 1 invariant 0 <= #i && #i <= len(scores) && finite(total) && 0 <= total && total <= #i
 //@   loop 1 invariant forall j in 0..len(scores) :: unit(scores[j])
+
+// ---- C10: signatures derived from a topology do not depend on map iteration order
+//@ func IndexFunction
+//@   noframe
+//@   protocol-only C10
+//@   deterministic
+
+//@ func ExtractStringPatterns
+//@   noframe
+//@   protocol-only C10
+//@   deterministic
